@@ -293,3 +293,13 @@ def model_hist_sim(tier, wd, seed=1):
 
 
 MODELS.update({"hist_sim": model_hist_sim})
+
+
+def model_rlp(tier, wd, seed=1):
+    n = Q(tier, 400, 1400)
+    stats, _ = simple_model("MC_Rlp.tla", "SPECIFICATION Spec\nCONSTANTS\n  MaxLen = %d\nINVARIANTS RoundTrip Prefixes NonCanonical Split\nCHECK_DEADLOCK FALSE\n" % n, "MC_Rlp", wd)
+    stats["constants"] = {"MaxLen": n}
+    return {"stats": stats, "scripts": []}
+
+
+MODELS.update({"rlp": model_rlp})
